@@ -9,6 +9,12 @@ TRUST = ("Trusted base: the harness itself (simulated clock, transport, peers, c
 
 # id -> (category, text, design_ref, technique, extra note)
 CHECKS = {
+ "C02": ("exploration", "Seeded simulation of the send window while the request head is written: the one-shot head is strictly re-parsed and compared with an independent reference head (request line, caller-added then original headers, exactly one Host, exactly the framing header the body uses), then a second instance is written under drawn output-size sequences biased to len(next line)+{-1,0,+1}; every call must end on a line boundary, overflow iff the next line does not fit, concatenation identical to the one-shot head; extra writes after completion must emit nothing and the flow is then continued into the body state and a body is really sent. Also run at redirect depth 1..3 by the redirect world.", "6/C02", "deterministic simulation: seeded send-window schedules x generated requests, strict re-parse against a reference head, continuation into the body state", ""),
+ "C05": ("exploration", "Seeded simulation of TCP segmentation of the response head: generated well-formed heads (0..128 fields, a 129..140 class, OWS/obs-text/empty values, repeated names, 3xx with Location anywhere) followed by arbitrary bytes, offered on drawn increasing arrival prefixes (every prefix for short heads) with re-polls to Flow, Call and the parser; strict prefix => need-more/0 consumed/not ready, complete => exact head and |H| consumed. The deliberate partial-redirect hack (D6) is recognised by a narrow signature and reported as KNOWN-FINDING; any other response-on-prefix is a violation.", "6/C05", "deterministic simulation: seeded arrival-prefix schedules (segmentation, re-polls) over generated heads with ground truth known by construction", ""),
+ "C07": ("exploration", "Seeded simulation of a chunked download: valid codings (small-scope grammar 3 of 4 runs, random beyond) behind a real head and followed by a next message, delivered under drawn arrival cut sets (structural cuts at every grammar-class change) into drawn output sizes with boundary stopping on/off/toggled, re-polls, and a sub-batch where the peer closes mid-coding. Per read: counts bounded, payload in step with consumption, never past the coding, ended iff final CRLF consumed, one chunk per read with boundary stopping, bounded progress once the schedule is fair. Coverage is measured over 104 (grammar position x output class x stop) cells.", "6/C07", "deterministic simulation: seeded arrival/buffer schedules and peer-close faults over generated chunked codings with a ground-truth chunk map", ""),
+ "C08": ("exploration", "Seeded simulation of length- and close-delimited downloads: each read compared with min(window, output, remaining) and the verbatim bytes, never past N with a next message in the window, complete iff N delivered, early peer close never completes; close-delimited bodies are passed through, always ready, and end must-close.", "6/C08", "deterministic simulation: seeded arrival/buffer schedules and peer-close faults against a min-of-three reference model", ""),
+ "C17": ("exploration", "Schedule-free: the verdict is a function of the request configuration. A validity-biased generator (valid request + 0..2 mutations) is classified by an independent reference (Valid / Invalid / DontCare) and compared with the real first write, repeated 4 times with different buffers, on the flow and both single-call constructors; all 35 reachable (api, class) cells are hit in every quick run.", "6/C17", "seeded configuration search against an independent validity classifier through the real write path (schedule-free; repeated attempts are the only history)", ""),
+ "C20": ("exploration", "Seeded prefix sweeps over generated request and response heads for limits N in {0,1,4,128}: complete head => exact method/status, version, fields, length; strict prefix within the limit => incomplete; too-many-headers exactly for complete heads over the limit (never within it); partial parser never errs within the limit and never reports a field not completely present.", "6/C20", "deterministic simulation of arrival prefixes (every byte boundary for heads <= 300 bytes) over generated heads with ground truth by construction", ""),
  "C03": ("exploration", "Seeded simulation of the caller/socket side of a chunked upload: random sequences of (input length, output buffer length) writes, finishing writes anywhere and repeated, writes after the end, on both APIs; every op's output is decoded by a strict reference chunk decoder and compared with the consumed input; finished-iff-terminator is checked after every op. Failures are minimised on the choice tape and replay exactly.", "6/C03", "deterministic simulation: seeded op-sequence search over buffer/backpressure schedules with a strict chunk-decoder oracle", ""),
  "C04": ("exploration", "Seeded simulation of a Content-Length upload: random write / direct-write-report / query sequences against a countdown reference model for N from 0 to u64::MAX, with zero-length inputs and buffers and overshoot-by-one attempts.", "6/C04", "deterministic simulation: seeded op-sequence search against a countdown reference model", ""),
  "C18": ("exploration", "Schedule-free: the outcome depends on the buffer size alone. Every n in 0..=30911 is swept on every run (both framings) through the real write path, larger n are sampled by seed. The simulator contributes the real call path, not interleavings.", "6/C18", "exhaustive sweep of the buffer-size knob 0..=30911 through the real write path plus seeded sampling above (schedule-free; no interleaving involved)", ""),
